@@ -211,11 +211,12 @@ class Loop(MiniLoop):
     pass
 
 
-def client_waiters(n: int, start_i: int, reply_i: int, rtype: int) -> bool:
+def client_waiters(n: int, start_i: int, reply_i: int, rtype: int, cancel_i: int = -1) -> bool:
     """SFTPClientHandler: with n requests outstanding (ids allocated across
     the 2^32 wrap) a reply resolves exactly the waiter of its id with the
-    reply, leaves the others pending; an unknown id fails all of them with
-    SFTPBadMessage and ends the session."""
+    reply, leaves the others pending; the reply to a request whose caller was
+    cancelled meanwhile is dropped without disturbing the others; an unknown
+    id fails all of them with SFTPBadMessage and ends the session."""
     n = conc(n, 0, 3)
     loop = Loop()
     h = S.SFTPClientHandler.__new__(S.SFTPClientHandler)
@@ -242,6 +243,11 @@ def client_waiters(n: int, start_i: int, reply_i: int, rtype: int) -> bool:
         return False
     cand = ids + [(start + 7) & 0xffffffff]
     rid = pick(cand, reply_i) if reply_i < len(cand) else cand[-1]
+    cancelled = conc(cancel_i, -1, 2)
+    if 0 <= cancelled < n:
+        waiters[cancelled].cancel()          # the caller gave up (task cancelled / wait_for timeout) after the request went out
+    else:
+        cancelled = -1
     pkt = SSHPacket(b'xyz')
     closed = []
 
@@ -259,13 +265,18 @@ def client_waiters(n: int, start_i: int, reply_i: int, rtype: int) -> bool:
     if rid in ids:
         i = ids.index(rid)
         for k, f in enumerate(waiters):
-            if k == i:
+            if k == cancelled:
+                if not f.cancelled():
+                    return False
+            elif k == i:
                 if not f.done() or f.result() != (rtype, pkt):
                     return False
             elif f.done():
                 return False
         return rid not in h._requests and len(h._requests) == n - 1 and not closed
-    for f in waiters:
+    for k, f in enumerate(waiters):
+        if k == cancelled:
+            continue
         if not f.done() or not isinstance(f.exception(), SFTPBadMessage):
             return False
     return h._requests == {} and len(closed) == 1
@@ -511,10 +522,10 @@ OBLIGATIONS = [
        functions=[S.SFTPServerHandler._process_packet, SFTPError.encode], bounds='15 errno values x 3 operations x versions 3..6'),
     Ob('error_encode', error_encode, sym=dict(code=R(0, 40)), shards=dict(version=[3, 4, 5, 6]), timeout=90,
        functions=[SFTPError.encode], bounds='status codes 0..40 x versions 3..6'),
-    Ob('client_waiters', client_waiters, sym=dict(n=R(0, 3), start_i=R(0, 3), reply_i=R(0, 3), rtype=R(0, 255)),
+    Ob('client_waiters', client_waiters, sym=dict(n=R(0, 3), start_i=R(0, 3), reply_i=R(0, 3), rtype=R(0, 255), cancel_i=R(-1, 2)),
        shards=dict(rtype=[101, 105]), timeout=120,
        functions=[S.SFTPClientHandler._send_request, S.SFTPClientHandler._process_packet, S.SFTPClientHandler._cleanup],
-       bounds='0..3 outstanding requests, first id in {0,5,2^32-2,2^32-1}, reply id = any outstanding or an unknown one'),
+       bounds='0..3 outstanding requests, first id in {0,5,2^32-2,2^32-1}, reply id = any outstanding or an unknown one, optionally one caller cancelled before the reply'),
     Ob('client_reply_type', client_reply_type, sym=dict(req=R(0, 4), rtype=R(0, 5), ok=B), timeout=120,
        functions=[S.SFTPClientHandler._make_request, S.SFTPClientHandler._process_packet],
        bounds='5 request kinds x 6 reply types (incl. unknown) x OK/error status'),
